@@ -249,7 +249,7 @@ def _judge(ctx, oa, b, cfg, tr, bi, site, fams):
     if 'Uniform::<X>::new' in n:
         return _uniform_new(ctx, oa, b, tr, t)
     if 'gen_range' in n:
-        lo, hi = const_value(tr.origin(t['args'][1]).get('c', {})), const_value(tr.origin(t['args'][2]).get('c', {}))
+        lo, hi = _const_number(tr, t['args'][1]), _const_number(tr, t['args'][2])
         if isinstance(lo, (int, float)) and isinstance(hi, (int, float)) and lo < hi:
             return 'discharged', 'gen_range-const', 'constant bounds %s < %s' % (lo, hi)
         return 'violation', 'gen_range', 'gen_range bounds are not constants with lo < hi (panics when lo >= hi)'
@@ -284,6 +284,27 @@ def _judge(ctx, oa, b, cfg, tr, bi, site, fams):
     if 'Builder::init' in n or 'logger::init' in n:
         return 'table', ('bin', 'logger-init', 'once'), ''
     return 'violation', 'panic-capable-call:' + n.rsplit('::', 2)[-1], 'call to %s can panic and is neither discharged nor tabled' % n
+
+
+def _const_number(tr, op):
+    """The number an operand denotes when it is built from literals and named constants only (`-HALF_WIDTH`, `2. * K`), exactly;
+    None otherwise."""
+    v = const_value(tr.origin(op).get('c', {})) if tr.origin(op)['o'] == 'const' else None
+    if isinstance(v, (int, float)) and not isinstance(v, bool):
+        return v
+    from ..loops import lift
+    from ..celltables import eval_num
+    e = lift(tr, op, None)
+    if e is None:
+        return None
+    try:
+        q = eval_num(e, {})
+    except Exception:      # noqa: BLE001
+        return None
+    try:
+        return float(q) if not isinstance(q, bool) else None
+    except Exception:      # noqa: BLE001
+        return None
 
 
 def _unreachable_by_value(ctx, b, bi):
